@@ -1,11 +1,46 @@
-//! C14: not built yet
+//! C14: client isolation; stale signals never hit a later connection (S4)
+use super::s4common::{self, Plan};
 use super::{Meta, Prop};
 use crate::common::{Ctx, Stats};
+#[allow(unused_imports)]
+use crate::sub::s4drive::{base_profile, Stepping, Weights};
+#[allow(unused_imports)]
+use rumqttd::Strategy;
 
-fn run(_ctx: &Ctx) -> Stats {
-    let mut s = Stats::default();
-    s.inconclusive.push("check not built yet".into());
-    s
+pub fn plan() -> Plan {
+    let mut p = base_profile("c14-isolation");
+    p.guarded_pair = true;
+    p.hostile = true;
+    p.stale_events = true;
+    p.clients = (3, 6);
+    p.w.bad = 10;
+    p.w.stale = 10;
+    p.w.takeover = 4;
+    p.w.link_drop = 6;
+    p.w.disconnect_pkt = 3;
+    p.w.connect = 12;
+    p.w.stall = 5;
+    p.max_connections = 6;
+    p.ops = (30, 140);
+    p.burst_pm = 40;
+    let mut single = p.clone();
+    single.name = "c14-single";
+    single.stepping = Stepping::Single;
+    let profiles = vec![p, single];
+    Plan {
+        profiles,
+        directed: vec![],
+        quick_histories: 500,
+        thorough_histories: 80000,
+    }
+}
+
+fn run(ctx: &Ctx) -> Stats {
+    s4common::run(ctx, &plan())
+}
+
+fn replay(ctx: &Ctx, doc: &serde_json::Value) -> Stats {
+    s4common::replay(ctx, &plan(), doc)
 }
 
 pub fn prop() -> Prop {
@@ -13,11 +48,11 @@ pub fn prop() -> Prop {
         id: "C14",
         meta: Meta {
             level: "exploration",
-            rule: "not built",
-            assumptions: &[],
-            floors: &[],
+            rule: "an always-present well-behaved publisher/subscriber pair (P, S) works throughout while 1-4 other clients misbehave (protocol violations, bad acks, abrupt drops, reconnect storms, stalls, slot churn); after router-side closes the harness, still holding the dead link, emits the late events remote() can emit (DeviceData, Ready, Disconnect, PublishWill) at random positions relative to connects that reuse the slot; all delivery/ack oracles on P and S plus a closed-without-cause oracle on every connection. A case counts as distinct and non-trivial when its sequence of operation kinds is new and it reached at least one named corner state.",
+            assumptions: &["router stepped on one thread through verif hooks; link actors use the real LinkTx/LinkRx", "default segment sizes: backlog stays within retention"],
+            floors: &[("quiescent-point", 20), ("stale-event-delivered", 10), ("slot-recycled", 5)],
         },
         run,
-        replay: None,
+        replay: Some(replay),
     }
 }
